@@ -6,6 +6,9 @@ ALL = ["C%02d" % i for i in range(1, 20)]
 
 # id -> (level category, technique, level text, level note, design ref)
 CHECKS = {
+ "C07": ("exploration", "runtime monitor: controlled cooperative scheduler on the protocol step hook (exhaustive DFS for 2 tasks, preemption-bounded DFS for 3-4, PCT for 5-16) with an online trace automaton and logical stuck detection; fault injection at every (task, step); offline porcupine linearizability check of free-running histories against a ticket-lock-with-cancel model",
+         "The step hook blocks every block task at every protocol step (also each spin iteration) and a controller releases exactly one task at a time, so the recorded event order is the execution order of the protocol steps. All interleavings of one batch of 2 tasks are enumerated (both sides: no fault, every (task, step) injected failure, damaged / forged blocks, end-of-stream and skipped-block outcomes); 3-4 tasks with preemption bound 1-2, 5-16 tasks with PCT; sink failures inside the shared section. The automaton checks mutual exclusion, increasing block order, the counter value at acquisition, no acquisition after a cancel, every task exits (a state where all live tasks spin on an unchanged counter is a deadlock - no clocks), and that a failed task makes the API call return an error. 400 free-running histories with random yields are checked with porcupine. Exhaustive only for the 2-task single-batch scenarios listed in the evidence.",
+         "Atomicity is at hook-step granularity in controlled mode. Trusts harness/sched (scheduler, monitor, ~600 lines) and the 12 hook call sites in v2/io/CompressedStream.go.", "DESIGN.md §3 C07"),
  "C02": ("exploration", "runtime monitor: prefix oracle over ALL bytes returned (also after an error) on streams damaged only inside block payloads located by the independent container parser",
          "13 checksummed streams (codec pairs, checksum 32/64, headerless, 1 MiB blocks) are damaged inside block payloads only: every payload bit of two small NONE/NONE streams (exhaustive), plus ~150 (quick) random bit flips / byte substitutions / swaps / zeroed runs per stream, in one or several blocks, biased to the in-block header, the stored checksum and the last bytes; stored checksums are also exchanged between blocks (content differs from what was hashed). The reader (jobs 1-4, varying buffer sizes) keeps calling Read up to 64 times after the first error; the concatenation of everything returned must be a prefix of the original and clean EOF implies equality.",
          "32-bit checksums legitimately pass 2^-32 of random damage (< 10^-4 per run). Whole self-consistent payloads exchanged between blocks are not generated (the format hashes content only).", "DESIGN.md §3 C02"),
